@@ -262,6 +262,8 @@ impl TransportVisitor for VBuf {
 
 struct VRaw {
     depth: usize,
+    /// The device answers a blocking receive only after 150 000 polls.
+    slow: bool,
 }
 
 struct RawRx {
@@ -298,21 +300,29 @@ impl TransportVisitor for VRaw {
         {
             let co2 = co.clone();
             let ws = wait_seq.clone();
+            // (frame length, poll at which the device delivers): decided at the first poll of a wait.
+            let plan: Rc<std::cell::Cell<Option<(usize, u64)>>> = Rc::new(std::cell::Cell::new(None));
+            let slow = self.slow;
             crate::mmio::set_spin_handler(Some(Box::new(move |_site| {
                 let n = {
                     let mut c = co2.borrow_mut();
                     c.spins += 1;
                     c.spins
                 };
-                if n > 4 {
+                if n == 1 || plan.get().is_none() {
+                    // A quick device with a small or a full frame, or a slow one that takes 150 000
+                    // polls: however long the wait, the call returns with the frame and not before.
+                    plan.set(Some(if slow { (1514usize, 150_000u64) } else { [(1usize, 1u64), (1514, 1)][choose(2, "frame size delivered while receive_wait spins")] }));
+                }
+                let (len, at) = plan.get().unwrap();
+                if n > at + 4 {
                     panic!("LAB-LIVELOCK: receive_wait did not return");
                 }
-                if ws.borrow().is_none() {
+                if ws.borrow().is_none() && n >= at {
                     let posted = co2.borrow_mut().held_count(0);
                     if posted == 0 {
                         panic!("LAB-LIVELOCK: receive_wait spins with no buffer posted");
                     }
-                    let len = [1usize, 1514][choose(2, "frame size delivered while receive_wait spins")];
                     let r = deliver(&co2, hdr, posted - 1, len, 777);
                     *ws.borrow_mut() = r;
                 }
@@ -518,10 +528,21 @@ pub fn run_mode(tkind: TKind, raw: bool, depth: usize, deep: bool) {
     let kind = if raw { Kind::NetRaw } else { Kind::NetBuf };
     let w = DWorld::new(kind, tkind, offered, kind.default_config());
     if raw {
-        w.with_transport(VRaw { depth });
+        w.with_transport(VRaw { depth, slow: false });
     } else {
         w.with_transport(VBuf { depth, deep, buf_len: NET_BUF_LEN });
     }
+    mmio::set_handler(None);
+}
+
+/// The raw driver against a device that answers a blocking receive only after 150 000 polls
+/// (short histories): however long the wait, the call returns with the frame and not before.
+pub fn run_slow(tkind: TKind, depth: usize) {
+    hal::reset();
+    let feats = [F_VERSION_1 | (1 << 5), (1 << 5) | (1 << 16)];
+    let offered = feats[choose(feats.len(), "offered features")];
+    let w = DWorld::new(Kind::NetRaw, tkind, offered, Kind::NetRaw.default_config());
+    w.with_transport(VRaw { depth, slow: true });
     mmio::set_handler(None);
 }
 
